@@ -17,7 +17,7 @@ from vlib.env import Env
 from checks import c01
 
 NARROW = {"wide": False, "struct": True, "farr": True, "darr": True, "refs": True, "calls": True, "match": True,
-          "for": True, "cast": True, "byval": True}
+          "for": True, "cast": True, "byval": True, "opt": False, "res": False, "clo": False}
 
 FLOAT_PROGRAMS = {
     "float_arith": """import "std/io";
